@@ -696,6 +696,24 @@ def c16(chk):
     chk.floor('encoders analysed', len([e for e in encs if in_scope(e)]), N_ENCODERS_FLOOR)
 
 
+def quick_incompatible(k1, k2, skip_leaf):
+    """Cheap test: some symbol other than the buffer length has disjoint ranges / value sets in the two leaves."""
+    for leaf, al in k1.allowed.items():
+        al2 = k2.allowed.get(leaf)
+        if al2 is not None and not (al & al2):
+            return True
+    for key, (lo, hi) in k1.bounds.items():
+        if len(key) != 1 or key[0][1] != 1 or key[0][0] == skip_leaf:
+            continue
+        b2 = k2.bounds.get(key)
+        if b2 is None:
+            continue
+        lo2, hi2 = b2
+        if (lo is not None and hi2 is not None and lo > hi2) or (hi is not None and lo2 is not None and hi < lo2):
+            return True
+    return False
+
+
 def panic_in_scope(enc, lf, oks):
     """None if the failing leaf is outside the property's quantifier (buffer too short for the packet, or arguments
     outside the documented shapes); otherwise a text saying why it is inside."""
@@ -708,6 +726,8 @@ def panic_in_scope(enc, lf, oks):
     bl = len_leaf(enc.bufname)
     arg_compatible = False
     for o in oks:
+        if quick_incompatible(lf.know, o.know, bl):
+            continue
         k = lf.know.clone()
         try:
             for a in o.facts:
